@@ -129,6 +129,22 @@ var failClasses = []failClass{
 		s.Spec.PostJWS = func(j string) string { return flipSigBit(h.r, j) }
 		s.Facts.SigOK = false
 	}},
+	{"signature-re-encoded-at-another-width", "urd", func(h *histCtx, s *opStep) {
+		// the same two integers written wider (zero bytes before each half / behind both) are not the signature that was made
+		s.Spec.PostJWS = func(j string) string {
+			t, _ := tamperSegment(j, 2, func(b []byte) []byte {
+				half, k := len(b)/2, fw.Pick(h.r, []int{1, 1, 2, 16})
+				if h.r.Chance(1, 4) {
+					return append(b, make([]byte, 2*k)...)
+				}
+				out := append(make([]byte, k), b[:half]...)
+				out = append(out, make([]byte, k)...)
+				return append(out, b[half:]...)
+			})
+			return t
+		}
+		s.Facts.SigOK = false
+	}},
 	{"signed-by-other-key", "urd", func(h *histCtx, s *opStep) {
 		honest := s.Spec.Signer
 		s.Spec.PayloadKey = honest.JWK()
@@ -157,6 +173,27 @@ var failClasses = []failClass{
 	{"extra-protected-header-null-valued", "urd", func(h *histCtx, s *opStep) {
 		s.Spec.Headers = map[string]interface{}{"alg": s.Spec.Signer.Alg(), fw.Pick(h.r, []string{"typ", "crit", "jku", "b64"}): nil}
 		s.Facts.ParseOK = false
+	}},
+	{"protected-header-duplicate-member", "urd", func(h *histCtx, s *opStep) {
+		// {"alg":"none","alg":"<signed value>"} / a repeated kid: a decoder that lets the last duplicate win rebuilds the signed header
+		alg := s.Spec.Signer.Alg()
+		s.Spec.Headers = map[string]interface{}{"alg": alg, "kid": "k1"}
+		s.Spec.PostJWS = func(j string) string {
+			parts := strings.Split(j, ".")
+			parts[0] = oracle.B64([]byte(fw.Pick(h.r, []string{`{"alg":"none","alg":"` + alg + `","kid":"k1"}`, `{"alg":"` + alg + `","kid":"injected","kid":"k1"}`, `{"alg":"` + alg + `","kid":"k1","kid":"k1"}`,
+				`{"typ":"JWT","alg":"` + alg + `","kid":"k1","typ":"JWT"}`})))
+			return strings.Join(parts, ".")
+		}
+		s.Facts.SigOK, s.Facts.ParseOK = false, false
+	}},
+	{"protected-header-trailing-data", "urd", func(h *histCtx, s *opStep) {
+		s.Spec.PostJWS = func(j string) string {
+			parts := strings.Split(j, ".")
+			raw, _ := oracle.B64DecodeStrict(parts[0])
+			parts[0] = oracle.B64(append(raw, []byte(fw.Pick(h.r, []string{`{"alg":"none"}`, `}`, `x`, ` {}`, `[]`}))...))
+			return strings.Join(parts, ".")
+		}
+		s.Facts.SigOK, s.Facts.ParseOK = false, false
 	}},
 	{"reveal-truncated-digest", "urd", func(h *histCtx, s *opStep) {
 		// a well-formed multihash of an allowed algorithm whose digest is a shortened prefix (down to length 0) is not the key's hash
@@ -967,7 +1004,7 @@ func runHistoryProto(c *fw.Case, plan []planEntry, keyType string, code uint64, 
 	c.Sample(map[string]interface{}{"key_type": keyType, "code": code, "outcomes": outcomes, "first_request": trace[0].(map[string]interface{})["request"]})
 }
 
-const invalidPatchVariants = 28
+const invalidPatchVariants = 39
 
 // invalidPatchDelta installs a delta whose second patch breaks one patch-validation constraint (variant 0..25).
 func invalidPatchDelta(h *histCtx, s *opStep, variant int) {
@@ -1066,6 +1103,41 @@ func invalidPatchDelta(h *histCtx, s *opStep, variant int) {
 		sv := gen.RandService(h.r, "svc1")
 		sv["serviceEndpoint"] = fw.Pick(h.r, []string{"https://example.com/path#%zz", "https://example.com/a#frag\x7f", "https://example.com/#\x01"})
 		badPatch = gen.PAddServices(sv)
+	case 28, 29:
+		// a patch list of no operations is not a patch (every action wants a non-empty list)
+		if h.hasIETF {
+			badPatch = map[string]interface{}{"action": "ietf-json-patch", "patches": []interface{}{}}
+			if variant == 29 {
+				badPatch["patches"] = nil
+			}
+		}
+	case 30:
+		badPatch = map[string]interface{}{"action": "add-public-keys", "publicKeys": []interface{}{}}
+	case 31:
+		badPatch = map[string]interface{}{"action": "add-services", "services": []interface{}{}}
+	case 32:
+		badPatch = map[string]interface{}{"action": "add-also-known-as", "uris": []interface{}{}}
+	case 33:
+		badPatch = map[string]interface{}{"action": "remove-also-known-as", "uris": []interface{}{}}
+	case 34:
+		badPatch = map[string]interface{}{"action": "remove-public-keys", "ids": []interface{}{}}
+	case 35:
+		// an action without its value, or with the value under another action's name
+		badPatch = map[string]interface{}{"action": fw.Pick(h.r, []string{"remove-public-keys", "remove-services", "add-public-keys", "add-services", "add-also-known-as", "remove-also-known-as", "replace"})}
+	case 36:
+		badPatch = fw.Pick(h.r, []map[string]interface{}{{"action": "remove-public-keys", "uris": []interface{}{"key1"}}, {"action": "remove-also-known-as", "ids": []interface{}{"https://a.example"}},
+			{"action": "add-public-keys", "services": []interface{}{edKey()}}, {"action": "replace", "publicKeys": []interface{}{edKey()}}})
+	case 38:
+		// a required JWK member that is present but not a text
+		bad = edKey()
+		bad["publicKeyJwk"].(map[string]interface{})[fw.Pick(h.r, []string{"kty", "crv", "x"})] = fw.Pick(h.r, []interface{}{nil, 7, true, []interface{}{}, map[string]interface{}{}})
+	case 37:
+		// the same URI in two spellings (scheme case, escaped / unescaped path character) is listed twice
+		pair := fw.Pick(h.r, [][]string{{"HTTPS://abc.example/a", "https://abc.example/a"}, {"https://abc.example/a b", "https://abc.example/a%20b"}, {"Did:example:x", "did:example:x"}})
+		if h.r.Bool() {
+			pair[0], pair[1] = pair[1], pair[0]
+		}
+		badPatch = fw.Pick(h.r, []map[string]interface{}{gen.PAddAka("https://ok.example", pair[0], pair[1]), gen.PRemoveAka(pair[0], pair[1])})
 	}
 	if badPatch == nil {
 		badPatch = gen.PAddKeys(bad)
